@@ -13,6 +13,8 @@ import (
 	tls "github.com/refraction-networking/utls"
 )
 
+const appPing = "ping-from-client"
+
 // RecConn records everything written to / read from the underlying connection.
 type RecConn struct {
 	net.Conn
@@ -34,7 +36,11 @@ func (c *RecConn) Read(b []byte) (int, error) {
 	c.mu.Unlock()
 	return n, err
 }
-func (c *RecConn) Written() []byte { c.mu.Lock(); defer c.mu.Unlock(); return append([]byte(nil), c.w.Bytes()...) }
+func (c *RecConn) Written() []byte {
+	c.mu.Lock()
+	defer c.mu.Unlock()
+	return append([]byte(nil), c.w.Bytes()...)
+}
 func (c *RecConn) ReadBytes() []byte {
 	c.mu.Lock()
 	defer c.mu.Unlock()
@@ -55,16 +61,18 @@ type Opts struct {
 
 // Result of one loopback handshake.
 type Result struct {
-	BuildErr    error               // BuildHandshakeState failed (no handshake attempted)
-	View        tls.VerifClientView // client's internal view after BuildHandshakeState
-	KeyShareKeys *tls.KeySharePrivateKeys // private keys retained by ApplyPreset (nil for TLS 1.2-only parrots)
-	ClientErr   error
-	ServerErr   error
-	ClientState tls.ConnectionState
-	ServerState tls.ConnectionState
-	ClientCurve uint16 // Conn.curveID on the client
-	ServerCurve uint16
-	ClientDidHRR bool
+	BuildErr           error                    // BuildHandshakeState failed (no handshake attempted)
+	View               tls.VerifClientView      // client's internal view after BuildHandshakeState
+	KeyShareKeys       *tls.KeySharePrivateKeys // private keys retained by ApplyPreset (nil for TLS 1.2-only parrots)
+	HasCompressCertExt bool                     // a UtlsCompressCertExtension is among UConn.Extensions
+	Spec               *tls.ClientHelloSpec     // the spec in force (UTLSIdToSpec(ID) or Opts.Spec), nil for HelloGolang/randomized
+	ClientErr          error
+	ServerErr          error
+	ClientState        tls.ConnectionState
+	ServerState        tls.ConnectionState
+	ClientCurve        uint16 // Conn.curveID on the client
+	ServerCurve        uint16
+	ClientDidHRR       bool
 	// AlertFromClient: alert description the server received from the client (-1 none);
 	// AlertFromServer likewise on the client side.
 	AlertFromClient int
@@ -134,8 +142,9 @@ func Run(o Opts) *Result {
 			out.state = sc.ConnectionState()
 			out.curve = tls.VerifCurveID(sc)
 			if !o.NoAppData {
-				buf := make([]byte, 64)
-				n, rerr := sc.Read(buf)
+				// TLS 1.0 CBC clients split the first record 1/n-1: read the whole message
+				buf := make([]byte, len(appPing))
+				n, rerr := io.ReadFull(sc, buf)
 				if rerr == nil {
 					sc.Write(append([]byte("echo:"), buf[:n]...))
 				} else {
@@ -174,13 +183,23 @@ func Run(o Opts) *Result {
 	}
 	res.View = tls.VerifClientViewOf(uc)
 	res.KeyShareKeys = uc.HandshakeState.State13.KeyShareKeys
+	for _, e := range uc.Extensions {
+		if _, ok := e.(*tls.UtlsCompressCertExtension); ok {
+			res.HasCompressCertExt = true
+		}
+	}
+	if o.Spec != nil {
+		res.Spec = o.Spec
+	} else if sp, err := tls.UTLSIdToSpec(o.ID); err == nil {
+		res.Spec = &sp
+	}
 	res.ClientErr = uc.Handshake()
 	if res.ClientErr == nil {
 		res.ClientState = uc.ConnectionState()
 		res.ClientCurve = tls.VerifCurveID(uc.Conn)
 		res.ClientDidHRR = tls.VerifDidHRR(uc.Conn)
 		if !o.NoAppData {
-			msg := []byte("ping-from-client")
+			msg := []byte(appPing)
 			if _, werr := uc.Write(msg); werr == nil {
 				buf := make([]byte, 64)
 				n, rerr := io.ReadAtLeast(uc, buf, 5+len(msg))
